@@ -23,7 +23,9 @@ RULE = ("registration histories on a private UnitDatabase(): bounded-exhaustive 
         "base, foreign symbols, legacy spellings, override, from_category with partial overrides, limits, every "
         "rejected-argument class) to depth 3 (quick) / 4 (thorough, last call from an 8-call sub-alphabet), random "
         "histories to depth 40 with arbitrary argument combinations; after the history the complete registry and ~45 "
-        "getter/construction queries are compared; distinct = distinct history; non-trivial = at least one accepted "
+        "getter/construction queries are compared; plus sessions (depth 2 exhaustive with a category / 3 thorough, and random) "
+        "in which Scalar(1.0, u, c) is attempted for the named categories x units before every call and after the last "
+        "(a unit that failed before its registration must work after it); distinct = distinct history; non-trivial = at least one accepted "
         "and (depth>1) one rejected or overriding call")
 EXHAUSTIVE = {"quick": False, "thorough": False}
 ASSUMPTIONS = ["conversion formulas of registered units are strings (callables are passed through unchecked by AddUnit)",
@@ -202,8 +204,44 @@ def _exhaustive(depth, last=None):
             yield _history([ALPHABET[i] for i in idx], tag="exhaustive")
 
 
+def _probe_queries(ops, upto):
+    """Scalar(1.0, u, c) for the categories named by the first `upto` calls and the unit symbols named anywhere
+    in the history (so that units are tried BEFORE they are registered, too)."""
+    cats, units = [], []
+    for o in ops[:upto]:
+        if o["k"] == "cat" and isinstance(o["c"], str) and o["c"] not in cats:
+            cats.append(o["c"])
+    for o in ops:
+        if o["k"] in ("base", "unit") and isinstance(o["unit"], str) and o["unit"] not in units:
+            units.append(o["unit"])
+    return [dict(q="create", c=c, u=u) for c in cats[:3] for u in units[:4]]
+
+
+def _probed(ops, tag="probed"):
+    """the history with creation attempts before every call and after the last one, as a session (`chist`)"""
+    cops = []
+    for i, o in enumerate(ops):
+        cops += _probe_queries(ops, i) + [o]
+    cops += _probe_queries(ops, len(ops))
+    return dict(op="chist", ops=[rc.enc_cop(o) for o in cops], _t=dict(ops=ops, cops=cops, tag=tag))
+
+
+def _probed_cases(ctx, salt, depth, n_random):
+    for idx in itertools.product(range(len(ALPHABET)), repeat=depth):
+        ops = [ALPHABET[i] for i in idx]
+        if any(o["k"] == "cat" for o in ops):
+            yield _probed(ops)
+    rng = ctx.fresh_rng("C14p" + salt)
+    for _ in range(n_random):
+        ops = [_base("length", "m"), _cat(rng.choice(["length", "depth"]), "length")]
+        for _ in range(rng.randint(1, 8)):
+            ops.append(_rnd_op(rng))
+        yield _probed(ops)
+
+
 def cases(ctx):
     yield dict(op="shipped", _t=dict(tag="shipped"))
+    yield from _probed_cases(ctx, ctx.tier[0], 2 if ctx.tier == "quick" else 3, 150 if ctx.tier == "quick" else 1500)
     if ctx.tier == "quick":
         yield from _exhaustive(3)
         yield from _random_histories(ctx, "q", 150, 40)
@@ -219,13 +257,14 @@ def model_line(c):
 
 
 def case_key(c):
-    return model_line(c) if c["op"] != "reghist" else c["ops"]
+    return c["ops"] if c["op"] in ("reghist", "chist") else model_line(c)
 
 
 def show(c):
     if c["op"] == "shipped":
         return "the shipped databases (POSC, POSC without categories, FillSimple)"
-    return [_show_op(o) for o in c["_t"]["ops"][:8]]
+    return ([] if c["op"] == "reghist" else ["(Scalar(1.0, u, c) tried before every call)"]) + \
+        [_show_op(o) for o in c["_t"]["ops"][:8]]
 
 
 def _show_op(o):
@@ -269,6 +308,15 @@ def impl(c, ctx):
             res[kind] = dict(ok=not fails, units=sum(len(v) for v in db.quantity_types.values()),
                              cats=len(db.categories_to_quantity_types), first=fails[:1])
         return res
+    if c["op"] == "chist":
+        import C15
+
+        outs, memo, cache, limits = C15._run(c["_t"]["cops"])
+        n = ctx.notes.setdefault("probed steps", {})
+        for op, o in zip(c["_t"]["cops"], outs):
+            key = (op["q"] if "q" in op else "Add" + op["k"]) + ("/" + o["err"] if "err" in o else "/ok")
+            n[key] = n.get(key, 0) + 1
+        return dict(outs=outs, memo=memo, cache=cache, limits=limits)
     db = _new_db()
     UnitDatabase.PushSingleton(db)
     try:
@@ -300,6 +348,10 @@ def agree(c, io, mo, ctx):
             if a["ok"] != b["ok"]:
                 return "%s: registry invariant impl=%s model=%s" % (kind, a, b)
         return None
+    if c["op"] == "chist":
+        import C15
+
+        return C15.agree(dict(c, _t=dict(ops=c["_t"]["cops"])), io, mo, ctx)
     if len(io["outs"]) != len(mo.get("outs", [])):
         return "length"
     for i, (op, a, b) in enumerate(zip(c["_t"]["ops"], io["outs"], mo["outs"])):
@@ -321,6 +373,9 @@ def nontrivial(c, io):
     if c["op"] == "shipped":
         return True
     outs = io["outs"]
+    if c["op"] == "chist":
+        # a creation that failed before a registration and is attempted again after it
+        return any("err" in o for o in outs) and any("err" not in o and "q" in op for op, o in zip(c["_t"]["cops"], outs))
     return any("err" not in o for o in outs) and (len(outs) == 1 or any("err" in o for o in outs)
                                                   or any(op["k"] == "cat" and op["kw"].get("override") for op in c["_t"]["ops"]))
 
@@ -336,9 +391,13 @@ def _check_history(ops):
     based = set()
     known_only = None
     for i, op in enumerate(ops):
-        before = rc.snapshot(db)
         UnitDatabase.PushSingleton(db)
         try:
+            # units and categories are also tried before they are registered (failing lookups must not
+            # prevent a later registration from making the unit usable)
+            for q in _probe_queries(ops, i):
+                rc.ask(db, q)
+            before = rc.snapshot(db)
             o = rc.apply_reg(db, op)
         finally:
             UnitDatabase.PopSingleton()
@@ -373,12 +432,13 @@ def oracle(c, ctx):
 
 def search(ctx):
     yield dict(op="shipped", _t=dict(tag="shipped"))
+    yield from _probed_cases(ctx, "s", 2, 300)
     yield from _exhaustive(3)
     yield from _random_histories(ctx, "s", 2000 if ctx.tier == "quick" else 20000, 30)
 
 
 def shrink(case, failure, ctx):
-    if case["op"] != "reghist":
+    if case["op"] not in ("reghist", "chist"):
         return case, failure
     ops = list(case["_t"]["ops"])
     i, budget = 0, 80
